@@ -86,7 +86,10 @@ EXCLUDE_BTREE_SETATTR = True
 
 ORIGIN_LABELS = (b"example", b"")
 ORIGIN_KEY = W.name_key(ORIGIN_LABELS)
-NAMES = [(), (b"www",), (b"sub",), (b"ns", b"sub"), (b"cn",), (b"a", b"ent")]
+NAMES = [(), (b"www",), (b"sub",), (b"ns", b"sub"), (b"cn",), (b"a", b"ent"),
+         # enough further names for a B-tree with branching factor 3 to have internal nodes, so that
+         # node splits, merges and steals happen between versions that share structure
+         (b"b1",), (b"b2",), (b"m",), (b"zz",), (b"b", b"ent")]
 ABSENT_NAME = (b"nothere",)
 
 # record pool: (type text, rdata text)
@@ -246,7 +249,17 @@ class _World:
         self.kind = case["kind"]
         self.rel = case["relativize"]
         factory = dns.btreezone.Zone if self.kind == "btree" else dns.versioned.Zone
-        self.zone = dns.zone.from_text(INIT, origin="example.", relativize=self.rel, zone_factory=factory)
+        init = INIT
+        if self.kind == "btree" and case.get("small_t"):
+            import dns.btree
+
+            class SmallTZone(dns.btreezone.Zone):
+                map_factory = staticmethod(lambda: dns.btree.BTreeDict(t=3))
+
+            factory = SmallTZone
+            # start with several leaves
+            init = INIT + "b1 300 A 192.0.2.9\nb2 300 A 192.0.2.9\nm 300 A 192.0.2.9\nzz 300 A 192.0.2.9\nb.ent 300 A 192.0.2.9\na.ent 300 A 192.0.2.9\n"
+        self.zone = dns.zone.from_text(init, origin="example.", relativize=self.rel, zone_factory=factory)
         self.origin = dns.name.Name(ORIGIN_LABELS)
         self.rds = []
         for t, text in POOL:
@@ -1196,7 +1209,7 @@ def histories(draw, max_rules):
     rel = draw(st.booleans())
     n = draw(st.sampled_from([6, 10, 15, 20, 25, 30, 35, max_rules, max_rules]))
     rules = [draw(_rule()) for _ in range(n)]
-    return {"kind": kind, "relativize": rel, "rules": rules}
+    return {"kind": kind, "relativize": rel, "rules": rules, "small_t": draw(st.booleans())}
 
 
 def _require():
